@@ -325,3 +325,9 @@ for _p, _d in PROPS.items():
 PROPS['C16']['level_text'] += (" conditionalrewards.main is verified against summaries of the three functions it calls: the batch runs on what was read from the file named by -f, and"
                                " that result is saved under the same name exactly when -s is given (nothing is saved otherwise, nor when the input is refused).")
 PROPS['C08']['level_text'] += " write_robots is verified to hand each writer the caller's board and exactly the probabilities of its game, in parameter order."
+_MANUAL_TXT = (" The second entry point, stochastic_game_from_roborta_board.create_sg_from_board (boards given by hand), is verified too: it derives length and width from the grid, its"
+               " precondition (a rectangular non-empty board, arrows 0..3, probabilities in (0,1)) implies write_robots' precondition, and the three grids and the three probabilities reach"
+               " write_robots unchanged, each probability in the parameter position of ITS kind (the entry point receives them in another order); get_max_from_matrix returns the largest entry"
+               " and cannot raise on such a board. A static obligation pins the shape of the writers' text tail (only constant text and one str(game).replace(const, const)... are written).")
+PROPS['C08']['level_text'] += _MANUAL_TXT
+PROPS['C11']['level_text'] += _MANUAL_TXT
